@@ -2097,6 +2097,90 @@ func runLifecycle(c lifecycleCase, sec *vh.Section) {
 				Spec: fmt.Sprintf("%v — the first %d without waiting for a later write", want, n0+3), ImplEqModel: true, Finding: "F79",
 				What: "a clean stop while the pipe is behind its source (a notified batch not yet copied): after the restart nothing starts a worker; the events are copied only when a later write to that partition arrives — and a first batch whose descriptor was never saved is never copied"})
 		}
+	case "stop-first-notification-unpublished", "stop-later-notification-unpublished":
+		// a write overlaps the stop of the service: the records are stored (and flushed), the writer is held right before it
+		// publishes its write event (hook partition.write.beforeNotify), the service stops, the writer goes on — its event reaches
+		// nobody (the notificator is gone). After the restart the acknowledged records are in the source.
+		//   later:  the pipe has a descriptor of the source → the catch-up at start (repair f54d781 of F79) finds Pos behind the
+		//           end and copies them: control, must pass;
+		//   first:  the pipe has never heard of the source → nothing to catch up with; a later write defines the start, the
+		//           records of the overlapping write are never copied (the rest of F79's class; the model's
+		//           cex_queued_first_notification_still_lost with the event unpublished instead of queued).
+		installWriteHook()
+		name := "pu"
+		srv.Pipes.CreatePipe(pipe.Pipe{Name: name, TagsCond: "grp=g1"})
+		dest := destOf(name)
+		n0 := 0
+		if c.Variant == "stop-later-notification-unpublished" {
+			r.write(0, mkEvs("e", 0, 2), "direct")
+			waitDest(srv, dest, 2, 8*time.Second)
+			settle(srv, name, tl, dest)
+			n0 = 2
+		}
+		g, doneW := parkedWrite(srv, tl, mkEvs("e", n0, 3))
+		select {
+		case <-g.arrived:
+		case <-time.After(8 * time.Second):
+			res.Note("lifecycle/%s: the writer did not reach partition.write.beforeNotify", c.Variant)
+			close(g.release)
+			return
+		}
+		for t0 := time.Now(); partCount(srv, tl) < n0+3 && time.Since(t0) < 8*time.Second; {
+			time.Sleep(5 * time.Millisecond)
+		}
+		before := descLine(srv, name, tl)
+		stopped := vh.WithTimeout(30*time.Second, func() { srv.Stop() })
+		close(g.release)
+		var werr error
+		select {
+		case werr = <-doneW:
+		case <-time.After(10 * time.Second):
+			res.SpecFail(vh.SpecFailure{Section: "lifecycle", Kind: "hang", Input: c, Impl: "the write held before its publication did not return within 10 s after the service stopped", Spec: "returns", What: "a write overlapping the stop of the service hangs"})
+			return
+		}
+		if !stopped {
+			res.SpecFail(vh.SpecFailure{Section: "lifecycle", Kind: "hang", Input: c, Impl: "the service did not stop within 30 s while a writer was held before its publication", Spec: "stops", What: "stopping the service hangs"})
+			return
+		}
+		srvU, err := lrsrv.Start(dir, lrsrv.Opts{WriteFlushMs: 40})
+		if err != nil {
+			res.Note("lifecycle/%s: restart: %v", c.Variant, err)
+			return
+		}
+		srv = srvU
+		r.srv = srv
+		after := descLine(srv, name, tl)
+		storedU := len(mustRead(srv, "select from {"+tl+"}"))
+		got1 := waitDest(srv, dest, n0+3, 2500*time.Millisecond)
+		settle(srv, name, tl, dest)
+		r.write(0, mkEvs("e", n0+3, 1), "direct")
+		waitDest(srv, dest, n0+4, 4*time.Second)
+		settle(srv, name, tl, dest)
+		got2 := msgsOf(mustRead(srv, "select from "+dest))
+		var wantU []string
+		for i := 0; i < n0+4; i++ {
+			wantU = append(wantU, fmt.Sprintf("e%d", i))
+		}
+		res.Dist(sec, fmt.Sprintf("%s: write returned %v; source holds %d after the restart; descriptor %s -> %s", c.Variant, werr, storedU, before, after))
+		if werr != nil || storedU != n0+3 {
+			// the overlapping write was not acknowledged, or its records are not there: nothing the pipe has to answer for
+			res.Note("lifecycle/%s: write err=%v, %d of %d records in the source after the restart: no verdict", c.Variant, werr, storedU, n0+3)
+			return
+		}
+		if got1 != n0+3 || strings.Join(got2, " ") != strings.Join(wantU, " ") {
+			kind, finding := "stranded-after-restart", "F79"
+			if strings.Join(got2, " ") != strings.Join(wantU, " ") {
+				kind = "lost-after-restart"
+			}
+			if c.Variant == "stop-first-notification-unpublished" && before == "none" {
+				// class: the source has no descriptor when the service stops and a write event of it is unpublished/queued
+				kind, finding = "first-notification-lost-at-stop", "F-C10-901"
+			}
+			res.SpecFail(vh.SpecFailure{Section: "lifecycle", Kind: kind, Input: c,
+				Impl: fmt.Sprintf("descriptor at the stop: %s, after the restart: %s; %d of %d events in the pipe partition 2.5 s after the restart without a write; after a later write: %v", before, after, got1, n0+3, got2),
+				Spec: fmt.Sprintf("%v", wantU), ImplEqModel: true, Finding: finding,
+				What: "a write to a source the pipe has no descriptor for overlaps a clean stop (records stored and acknowledged, write event not handled before the notificator ended): after the restart nothing tells the pipe about them; the next write defines the pipe's start in that source and the earlier records are never copied"})
+		}
 	case "concurrent-saves":
 		// four sources of one pipe written at the same moment, round after round: their workers are woken by the same flush and
 		// run saveState at about the same time. saveState writes the WHOLE map: after every round, with all workers idle, the
@@ -2677,7 +2761,7 @@ func sectionLifecycle(corpus []lifecycleCase) {
 	cs := []lifecycleCase{}
 	all := append(corpus, lifecycleCase{Variant: "churn"}, lifecycleCase{Variant: "stop-behind-first-batch"}, lifecycleCase{Variant: "stop-behind-later-batch"}, lifecycleCase{Variant: "recreate-parked"}, lifecycleCase{Variant: "recreate-free"}, lifecycleCase{Variant: "recreate-after-removal"},
 		lifecycleCase{Variant: "chain-named"}, lifecycleCase{Variant: "chain-all"}, lifecycleCase{Variant: "client-writes-pipe-partition"},
-		lifecycleCase{Variant: "truncate-behind"}, lifecycleCase{Variant: "truncate-copied"}, lifecycleCase{Variant: "delete-source"}, lifecycleCase{Variant: "concurrent-saves"})
+		lifecycleCase{Variant: "truncate-behind"}, lifecycleCase{Variant: "truncate-copied"}, lifecycleCase{Variant: "delete-source"}, lifecycleCase{Variant: "concurrent-saves"}, lifecycleCase{Variant: "stop-first-notification-unpublished"}, lifecycleCase{Variant: "stop-later-notification-unpublished"})
 	// (names whose tag line needs quoting — blanks, non-ASCII — are C08's business: the pipe's partition could not be queried)
 	for _, n := range []string{"p_r", "p:r", "p/r", "p.dat", "p-r"} {
 		all = append(all, lifecycleCase{Variant: "recreate-after-removal", Name: n})
